@@ -448,6 +448,14 @@ func fixedCases() []*Case {
 		cs = append(cs, &Case{Input: strings.Repeat(`a="1" & `, depth) + `b=$1`, Source: "deep"})
 		cs = append(cs, &Case{Input: strings.Repeat(`(a="1" | `, depth) + `b=$1` + strings.Repeat(")", depth), Source: "deep"})
 	}
+	// more than 65,536 of something in one sentence: operators of one flat
+	// chain, negations (flat and nested), group-by fields
+	for _, n := range []int{65537, 70000} {
+		cs = append(cs, &Case{Input: strings.Repeat(`^a="1" & `, n) + `^b="2"`, Source: "huge-flat"})
+		cs = append(cs, &Case{Input: strings.Repeat(`(^a="1") | `, n) + `b="2"`, Source: "huge-flat"})
+		cs = append(cs, &Case{Input: strings.Repeat("^", n) + `a="1"`, Source: "huge-flat"})
+		cs = append(cs, &Case{Input: `a="1" ; ` + strings.Repeat("f, ", n) + "g", Source: "huge-flat"})
+	}
 	return cs
 }
 
